@@ -117,19 +117,25 @@ PROPS["C16"] = {
     "level_note": "Trusted: pyvc, z3, the library contracts named; keys and bounds are SMT reals (no NaN).",
 }
 PROPS["C17"] = {
-    "units": ["contracts.c17_combinations"],
+    "units": ["contracts.c17_combinations", "contracts.c17_combinations:unit_stream"],
     "bounded": True,
     "level": "other",
     "trusted_base": ["pyvc VC generator (/verif/pyvc)", "z3", "Python semantics as listed in DESIGN.md §2.3",
-                     "ASSUMED callee contract: the stream of sorted_combinations (keys non-decreasing, complete, exactly once) - bounded only"],
-    "explanation": "Deductive (unbounded): min_combinations_in_interval_iter_sorted against the stream contract of sorted_combinations - loop "
+                     "heapq (trusted): heapify / heappush / heappop keep the entries (rearranged), heappop returns an entry with the smallest key "
+                     "(tuple order is lexicographic)",
+                     "ASSUMED: completeness / exactly-once of the stream of sorted_combinations and termination of its while loop - bounded only"],
+    "explanation": "Deductive (unbounded): (1) min_combinations_in_interval_iter_sorted against the stream contract of sorted_combinations - loop "
                    "invariant over the consumed prefix, soundness of both early exits, result = exactly the stream combinations with the "
-                   "smallest sum in [i_start, i_end), [] iff none. Bounded only (never counted as proved): the stream contract itself, i.e. "
-                   "sorted_combinations yields every non-empty combination exactly once in non-decreasing key order (heap-order argument and "
-                   "a set-of-index-tuples induction that SMT does not carry); checked exhaustively for <= 6/7 elements against itertools.",
-    "level_text": "Proof for the interval search relative to the assumed stream contract; exhaustive bounded check (n <= 6/7, scores 0..3, five "
-                  "monotone keys) for sorted_combinations itself.",
-    "level_note": "The completeness / ordering of the combination stream is an ASSUMED callee contract, bounded-checked only (DESIGN §6 C17, §9).",
+                   "smallest sum in [i_start, i_end), [] iff none; (2) sorted_combinations itself, for every key that never decreases when an "
+                   "element is appended: heap-order invariant (everything still in the heap has a key not smaller than the last yielded one; "
+                   "every pushed extension has a key not smaller than its parent's), hence keys are yielded in non-decreasing order, each "
+                   "with its key alongside, each combination non-empty and made of input elements. Bounded only (never counted as proved): "
+                   "that the stream contains EVERY non-empty combination exactly once, as index-ordered tuples (a set-of-index-tuples "
+                   "induction that SMT does not carry) and that the generator terminates; checked exhaustively for <= 6/7 elements against "
+                   "itertools.",
+    "level_text": "Proof of the interval search and of the ordering half of the stream contract; exhaustive bounded check (n <= 6/7, scores 0..3, "
+                  "five monotone keys) for completeness / exactly-once.",
+    "level_note": "Completeness of the combination stream is an ASSUMED callee contract, bounded-checked only (DESIGN §6 C17, §9).",
 }
 PROPS["C20"] = {
     "units": ["contracts.c20_pools"],
